@@ -1433,19 +1433,20 @@ func (e *engine) heldFramesIntact(cl *client, hSends []hSend, hOthers []hOther) 
 			return false
 		}
 	}
-	for i, h := range hOthers {
+	for _, h := range hOthers {
 		if h.ref == nil {
 			continue
 		}
 		if b, err := q.codec.EncodeFrame(h.ref, h.ver); err != nil || string(b) != string(h.enc) {
-			if h.typ == frame.EVENT {
-				// see the report: EventPacket.Data is not detached by the adapter; no handler
-				// in the repository keeps an EVENT beyond the call
-				q.r.Probe("event_data_aliases_read_buffer")
-				continue
-			}
-			q.fail("handler-frames-mismatch", "changed-after-delivery", fmt.Sprintf("c%d: frame #%d (%v) read %s when the handler received it and reads %s now, after the server processed more of the stream", cl.k, i, h.typ, short(h.enc), short(b)), nil)
-			return false
+			// Only SEND frames are handed to an asynchronous consumer (the send
+			// worker); the adapter detaches their payload for that reason. Every
+			// other frame is dispatched synchronously inside OnData and no handler
+			// of the repository keeps it beyond the call, so a payload or data field
+			// that still aliases the transport's read buffer (EVENT.Data,
+			// RECV.Payload sent by a client, ...) is recorded, not flagged: C23 asks
+			// that decoding yields the original frames, which it did at delivery.
+			q.r.Probe(strings.ToLower(h.typ.String()) + "_payload_aliases_read_buffer")
+			continue
 		}
 	}
 	return true
